@@ -20,6 +20,18 @@ representation holds exactly the same numbers.  Representations:
  (c) containers: MaskedArray with an all-False mask, MaskedArray with nomask,
      NDData, Quantity with the same unit on every companion argument, NDData
      carrying the unit (with Quantity companions);
+     forms of the NDData container (``registry.NDDATA_FORMS``), for every entry
+     that accepts an NDData: full product  uncertainty type {StdDevUncertainty
+     (sigma), VarianceUncertainty(sigma**2), InverseVariance(1 / sigma**2)} x
+     unit form {unit-less container; unit-ful container with an uncertainty
+     without a unit of its own (inherits), with the unit given explicitly (Jy,
+     Jy**2, Jy**-2), with the same physical values in mJy (numbers x 1e3, 1e6,
+     1e-6)} (12 forms, 2 of them the plain 'nddata' / 'nddata_q'), plus the
+     CCDData class.  Each must equal the plain-array call with error=sigma.
+     aperture_photometry / ApertureStats document that the error must be a
+     StdDevUncertainty: their Variance / InverseVariance forms are skipped
+     (counted); an uncertainty in mJy inside a Jy container may be rejected
+     (ValueError / TypeError / UnitsError) instead of converted, as in (e);
                                                                    (must agree)
  (d) unit mixing, as a block: Quantity data + plain companions, plain data +
      Quantity companions                                           (must raise)
@@ -48,6 +60,31 @@ Oracle (metamorphic, no expected numbers):
  * a step that receives the data and a unit-ful companion raises when only one
    of them carries units (d, e); a convertible but different unit is rejected
    or converted, never used as raw numbers (e).
+
+ (g) OPTIONS (``mcphot.ref.c15_options``): unit-ful input x the optional
+     arguments of the call.  Whether a Quantity / unit-ful NDData / CCDData is
+     handled like the bare array depends on which options are in effect (a fill
+     value written before or after the unit is attached, a mask, an
+     interpolator, a clipping object, a local background ...); the recipes of
+     (a)-(e) use one or two fixed option sets per entry.  For each of 17 entries
+     (Background2D, CutoutImage, calc_total_error, aperture_photometry,
+     ApertureStats, detect_threshold, detect_sources + deblend_sources,
+     find_peaks, DAOStarFinder, IRAFStarFinder, StarFinder, SourceCatalog,
+     RadialProfile, CurveOfGrowth, centroid_sources, data_properties,
+     extract_stars): FULL PRODUCT of the option alphabets (every optional
+     argument that touches values: default first, then every other kind of
+     value; listed in the evidence) x representation {Quantity, NDData with
+     unit, CCDData, unit-less NDData (the last three where the entry accepts an
+     NDData)}.  Quick tier: a stated sub-product for Background2D (2048 -> 108
+     combinations: coverage_mask x fill_value {0, NaN, -1.5} x mask x
+     interpolator in full, mesh options x zoom interpolator in full),
+     ApertureStats and SourceCatalog (one value dropped); everything else in
+     full.  Oracle: every output equals the plain float64 call of the same
+     combination (RTOL; fits RTOL_FIT) and carries Jy**k for the k the docs give
+     that output (undocumented outputs: no unit demanded).  extract_stars takes
+     an NDData only: its "plain call" is the plain model cutout / weights =
+     1 / sigma (0 where masked), for uncertainty type {std, var, ivar} x mask.
+
 Exempt: Background2D value comparison for integer input (documented: output has
 the integer dtype of the input, i.e. is rounded).
 Not enumerated (outside the property's list): float16 and bool images.
@@ -96,7 +133,10 @@ RULE = ('full Cartesian product: every numerical registry recipe (entry points t
         'condition {clean, masked} (+ negatives in the thorough tier).  Representations: the full product dtype {f8, f4, i1, i2, '
         'i4, i8, u1, u2, u4, u8} x byte order {little, big} (each compared with the float64 baseline run in the value domain '
         'its type can hold: full / non-negative / 7-bit); layouts {Fortran order, strided view} (thorough: x every dtype and '
-        'byte order); containers {MaskedArray(empty mask), MaskedArray(nomask), NDData, Quantity, NDData with unit}; unit mixing as a block (2 '
+        'byte order); containers {MaskedArray(empty mask), MaskedArray(nomask), NDData, Quantity, NDData with unit}; NDData forms for the '
+        'NDData-accepting recipes: uncertainty type {StdDev, Variance, InverseVariance} x unit form {unit-less container; unit-ful: '
+        'uncertainty unit inherited / explicit / explicit in mJy} + the CCDData class (11 forms besides the two plain ones), each '
+        'compared with the plain-array call with error=sigma; unit mixing as a block (2 '
         'ways) and one companion at a time: every unit-ful companion argument the recipe hands out (error, background, '
         'convolved_data, bkg_error, effective_gain, local_bkg, threshold, peakmax, flux column) x {alone plain, alone unit-ful, '
         'alone in mJy instead of Jy}.  Each recipe executes its steps (call, then every public property / argument-less method '
@@ -112,7 +152,11 @@ RULE = ('full Cartesian product: every numerical registry recipe (entry points t
         'float64 and float32 (thorough: every dtype), Quantity float64 / float32 for the wrappers} x condition {clean, 57 NaN '
         'pixels (floating-point types)} on one 1024 x 1000 integer-valued image (pedestal 1000, sigma 5; 8-bit types: pedestal '
         '100), each output compared with the float64 result; one evaluation = one compared entry, non-trivial when the '
-        'float64 baseline returned a number')
+        'float64 baseline returned a number.  OPTIONS family (unit-ful input x optional arguments): for each of 17 entries the full '
+        'product of its option alphabets (evidence: coverage.options; quick tier: stated sub-product for Background2D / ApertureStats / '
+        'SourceCatalog) x representation {Quantity, NDData with unit, CCDData, unit-less NDData}, every output compared with the '
+        'plain float64 call of the same option combination (numbers + documented unit); one evaluation = one (combination, '
+        'representation), non-trivial when the float64 call returned a number')
 ASSUMPTIONS = ['the scene is integer valued (|values| < 2**15) so that every float / signed type of >= 16 bit holds exactly the '
                'float64 numbers; unsigned types are compared on the scene with negative pixels clipped to 0, 8-bit types on '
                'a fainter exposure (x 0.15, rounded, within 0..127), each against a float64 baseline of the same numbers '
@@ -128,6 +172,14 @@ ASSUMPTIONS = ['the scene is integer valued (|values| < 2**15) so that every flo
                'after a call on an object was rejected, later reads of that object are not judged (state after an error)',
                'an unsigned / 8-bit kernel or convolved image that cannot hold its values stays float64 (counted in the evidence)',
                'float16 and bool images are not in the property\'s list of representations and are not enumerated',
+               'NDData forms: an InverseVariance holds sigma to 2 roundings (1 / sigma**2, then 1 / sqrt): relative 2e-16, covered by '
+               'RTOL / RTOL_FIT (measured worst case 4.6e-11 on fit outputs); aperture_photometry / ApertureStats are documented to take '
+               'the error from a StdDevUncertainty only (other types skipped); a unit-less container holding an uncertainty with a unit '
+               'is itself a unit mixture and is not enumerated',
+               'options family: the option alphabets are hand-listed per entry (every optional argument that touches values; evidence '
+               'coverage.options); entries / options not listed there are covered only by the fixed option sets of the recipes; the unit '
+               'demanded of an output is the one its docstring gives (power of the data unit), undocumented outputs (CutoutImage.data, '
+               'normalised profiles, magnitudes) are compared in value only',
                'large reductions: "float32 precision" of a reduction over n = 2**20 pixels means float64 or pairwise float32 '
                'accumulation (error <= ~32 float32 roundings: 2e-6 relative), along an image axis of length L ~ 1e3 a plain '
                'float32 running sum (<= (L-1) roundings per pass: 6e-5); float64 accumulation of a float64 image may be a '
@@ -485,6 +537,11 @@ def run_recipe_cond(acc, r, cond, seed, only_rep=None, sample=False, tier='quick
                 continue
             bl = base_leaves[label]
             acc.case(nontrivial=nnum(bl) > 0, key=(label, rep, cond) if nnum(bl) else None, sample=smp)
+            if status != 'ok' and rep.endswith('+other') and c.out[label].is_rejection:
+                # an uncertainty in a convertible but different unit (mJy in a Jy container) is rejected or converted,
+                # never used as raw numbers (the rule of (e)): a rejection is accepted
+                acc.counters['nddata: uncertainty in another unit rejected (accepted outcome)'] += 1
+                continue
             if status != 'ok':
                 acc.violation('repr-raises', site_of(label, rep), case, observed=repr(c.out[label]),
                               expected='succeeds as for the float64 ndarray',
@@ -853,6 +910,7 @@ def describe(tier, seed):
     reps = ['f8 (baseline)'] + [rep for rep in R.C15_REPS + ('nddata_q',) + NEW_DTYPE_REPS]
     if tier == 'thorough':
         reps += [f'{d}@{lay}' for d in R.C15_DTYPE_REPS for lay in R.C15_LAYOUTS]
+    reps += [f'{f} (NDData-accepting recipes)' for f in R.NDDATA_FORMS]
     reps += list(R.C15_MIXED) + [f'{mode}:<companion>' for mode in R.C15_SOLO]
     return {'alphabet': {'recipes': len(num), 'representations': reps,
                          'dtype_of_representation': {rep: R.DTYPE_OF_REP[rep] for rep in R.C15_DTYPE_REPS},
@@ -866,7 +924,12 @@ def describe(tier, seed):
             'recipes_without_image_argument (C10 only)': [r.name for r in R.RECIPES.values() if not r.numeric],
             'quantity_demanded_for': [r.name for r in num if r.units],
             'nddata_demanded_for': [r.name for r in num if r.nddata],
-            'not_enumerated': ['float16 images', 'bool images', 'Quantity pixel positions'],
+            'not_enumerated': ['float16 images', 'bool images', 'Quantity pixel positions',
+                               'unit-less NDData holding an uncertainty with a unit (a unit mixture)',
+                               'equal but not identical unit objects (Jy ** 1 next to Jy)'],
+            'nddata_forms': {'forms': list(R.NDDATA_FORMS), 'recipes': [r.name for r in num if r.nddata],
+                             'stddev_only (Variance / InverseVariance skipped, documented)': sorted(STDDEV_ONLY)},
+            'options': O.describe(tier),
             'public_callables': cov['public_callables'],
             'uncovered': cov['uncovered'],
             'unclassified_public_callables': cov['unclassified'],
